@@ -73,3 +73,7 @@ impl NtpClock for NtpClockWrapper {
         })
     }
 }
+
+#[cfg(all(test, feature = "pendulum_project_ntpd_rs_verif"))]
+#[path = "../../../../verif/harness/ntpd/daemon_clock.rs"]
+mod verif_daemon_clock;
